@@ -140,7 +140,7 @@ func (n *nullableCtx) checkTimestamps(rule string, fns []*ssa.Function) {
 			continue
 		}
 		fn := fn
-		c.Walk(rule, fn, func(p *walk.Path) {
+		c.WalkShallow(rule, fn, func(p *walk.Path) {
 			for i, s := range p.Steps {
 				var ptr ssa.Value
 				what := ""
